@@ -28,8 +28,9 @@ func init() {
 			{"historic-root", "the historic VM's trie store is rooted at GetStateRoot(b.Index-1) of the block it executes in, over a private cache layer, and refuses garbage-collected heights", ruleHistoricRoot},
 			{"mpt-reader", "Trie methods read node records only through the mode-aware getFromStore (a retained root keeps every key contract storage holds, in every trie mode)", ruleMPTReader},
 			{"mpt-batch-source", "the MPT batch of a block is GetStorageChanges() of the very layer every execution of the block wrote to, taken after the last execution, and that layer is what is published", ruleMPTBatchSource},
+			{"seek-orientation", "every decision of the trie-backed range search (Trie.Find, TrieStore.Seek, Billet.traverse) that combines the scan direction with a comparison against the start point has the ordered-map truth table: a subtree is skipped exactly when it lies before the start in scan direction; children are visited in scan order, the node's own value first (forward) or last (backward)", func(c *Ctx) { ruleSeekOrientation(c, map[string]bool{"pkg/core/mpt": true}) }},
 		},
-		NotCovered: "trie correctness itself (C10), Find/Seek ordering, proofs per key, equality of historic and live results",
+		NotCovered: "trie correctness itself (C10), proofs per key, equality of historic and live results beyond the direction/start truth tables (keys that are strict prefixes or extensions of the start point in a backward scan)",
 	})
 	register(&PropertySpec{
 		ID: "C02",
@@ -102,8 +103,9 @@ func init() {
 			{"stor-routing", "chooseMap routes exactly the contract-storage prefixes to stor; no keyed access to mem/stor bypasses it; GetStorageChanges returns stor", ruleStorRouting},
 			{"backend-tx", "every BoltDB/LevelDB mutation happens inside a transaction; a change set is one transaction committed on the success path", ruleBackendTx},
 			{"seek-prefix-owned", "a seek range built from the DAO's reusable key buffer is copied before being handed to a seek whose callback may re-enter the DAO", ruleSeekPrefixOwned},
+			{"seek-orientation", "in every store implementation the key filter keeps exactly the keys at or past the start in scan direction, results are sorted by the comparator of that direction, disk iterators step with Next/Prev accordingly, and the backend range is [prefix+start, end of prefix) forward and [prefix, end of prefix+start) backward", func(c *Ctx) { ruleSeekOrientation(c, map[string]bool{"pkg/core/storage": true}) }},
 		},
-		NotCovered: "the merge algorithm of performSeek, range translation for the disk backends, ordering/duplicates, search depth — all value-level",
+		NotCovered: "the merge algorithm of performSeek, ordering/duplicates across layers, search depth, and the treatment of keys that strictly extend the start point in a backward scan (memory layers drop them, disk ranges keep them: value-level, see DESIGN.md §6)",
 	})
 	register(&PropertySpec{
 		ID: "C01",
@@ -128,8 +130,9 @@ func init() {
 			{"node-switch", "type switches dispatching over trie node kinds cover all five kinds or fail in their default arm", ruleNodeSwitch},
 			{"append-alias", "no append(node.field, ...) in package mpt whose result leaves the field (it would write into the spare capacity a node key shares with the path/batch array it was sliced from)", ruleAppendAlias},
 			{"mpt-reader", "Trie methods read node records only through the mode-aware getFromStore (reads after reload agree with content in every trie mode)", ruleMPTReader},
+			{"seek-orientation", "ordered range searches over the trie (Trie.Find, TrieStore.Seek, Billet.traverse) skip a subtree exactly when it lies before the start in scan direction, and visit children in scan order with the node's own value first (forward) or last (backward)", func(c *Ctx) { ruleSeekOrientation(c, map[string]bool{"pkg/core/mpt": true}) }},
 		},
-		NotCovered: "history independence as such, batch/restructuring correctness, ordered traversal, completeness of proofs",
+		NotCovered: "history independence as such, batch/restructuring correctness, completeness of proofs; of ordered traversal only the direction/start truth tables and the visiting order are decided",
 	})
 	register(&PropertySpec{
 		ID: "C11",
